@@ -53,6 +53,18 @@ Object counting_new(int token) {
   return o;
 }
 
+/* an object the IMPLEMENTATION owns and merely shows to the caller (stored into an output slot
+ * of a call that then fails): the lender drops its own reference when the call is over, in
+ * counting_report(); nobody else may have touched the count */
+static Object g_lent[64];
+static int g_nlent = 0;
+
+Object counting_lend(int token) {
+  Object o = counting_new(token);
+  if (g_nlent < 64) g_lent[g_nlent++] = o;
+  return o;
+}
+
 const char *obj_text(Object o) {
   static char ring[16][40];
   static unsigned pos = 0;
@@ -71,6 +83,13 @@ const char *obj_text(Object o) {
 void counting_report(void) {
   char line[160];
   cobj *c;
+  int i;
+  for (i = 0; i < g_nlent; i++) {
+    cobj *l = (cobj *)g_lent[i].context;
+    l->releases++;
+    l->count--;
+  }
+  g_nlent = 0;
   for (c = g_head; c; c = c->next) {
     if (c->reported) continue;
     snprintf(line, sizeof line,
